@@ -10,7 +10,7 @@ Model: spec/vmxref   VMXRef.tla       implementation-shaped model of vm.go at sc
                                       once, when the last frame of its script context goes).  Code shape switch
                                       UnwindReleasesStack (FALSE = the tree: stacks of unwound script contexts stay counted);
                                       deviations TLC must refute: BugTruncFirst, BugNoStaticOnUnwind, BugRetDoubleCount,
-                                      BugArgsDoubleRelease, BugExcNotCounted
+                                      BugArgsDoubleRelease, BugExcNotCounted, BugRetLeavesRest
                      VMXRefCover.tla  prints every transition of a small state graph -> transition cover
                      VMXRefSim.tla    behaviour generator over larger constants
                      VMXRefTrace.tla  judges the recorded observations of the real VM with the clauses of VMLimits
@@ -53,6 +53,7 @@ DEVIATIONS = {
     "BugRetDoubleCount": {"ExactAcyclic"},
     "BugArgsDoubleRelease": {"NoUnderCount", "Bounded"},
     "BugExcNotCounted": {"NoUnderCount", "Bounded"},
+    "BugRetLeavesRest": {"ExactAcyclic"},
 }
 TLASTR = re.compile(r'"((?:[^"\\]|\\.)*)"')
 
@@ -222,11 +223,16 @@ def model_stage(ctx):
 
     def one(job):
         kind, what, module, cfg = job
-        try:
-            r = ctx.tlc_mc(SUB, module, cfg, timeout=900 if q else 3600, workers=WORKERS)
-            return job, r, None
-        except vlib.ModelError as e:
-            return job, e.res, e
+        for attempt in (0, 1):
+            try:
+                r = ctx.tlc_mc(SUB, module, cfg, timeout=900 if q else 3600, workers=WORKERS)
+                return job, r, None
+            except vlib.ModelError as e:
+                # an error that is not a verdict of TLC about the model (a JVM that could not start on the shared
+                # machine, ...) is tried once more before it makes the run inconclusive
+                if attempt == 1 or violated((e.res or {}).get("out", "")):
+                    return job, e.res, e
+                vlib.log("TLC failed on %s without a verdict (%s): once more" % (cfg, e))
     cover_stats, walks = {}, []
     with ThreadPoolExecutor(max_workers=4 if q else 5) as ex:
         results = list(ex.map(one, jobs))
@@ -250,8 +256,8 @@ def model_stage(ctx):
             ctx.extra["xscript_model_selftests"] = ctx.extra.get("xscript_model_selftests", 0) + 1
         else:
             if err is None or not violated(out) or (kind == "bugcount" and not (violated(out) & DEVIATIONS[what])):
-                raise vlib.Inconclusive("deviation %s (%s) not refuted by the model's %s clauses: %s" % (
-                    what, cfg, "counting" if kind == "bugcount" else "", sorted(violated(out)) if err else "no error"))
+                raise vlib.Inconclusive("deviation %s (%s) not refuted by the model's %s clauses: %s\n%s" % (
+                    what, cfg, "counting" if kind == "bugcount" else "", sorted(violated(out)) if err else "no error", vlib.tail(out, 15)))
             ctx.extra["xscript_model_selftests"] = ctx.extra.get("xscript_model_selftests", 0) + 1
     ctx.extra["xscript_transition_cover"] = cover_stats
     return walks, rnd
@@ -342,7 +348,8 @@ def run_ext(ctx):
     if st.get("behaviours_replayed_to_the_end", 0) * 10 < 9 * nb:
         raise vlib.Inconclusive("fewer than 90%% of the model behaviours could be replayed to their end (%s of %s): %s" % (
             st.get("behaviours_replayed_to_the_end"), st.get("behaviours"), (res.get("drift") or [None])[:2]))
-    for cls, key, least in (("cov", "unwound_script_contexts", 1), ("cov", "cross_script_returns", 1), ("heavy", "max_walked", 2048),
+    for cls, key, least in (("cov", "unwound_script_contexts", 1), ("cov", "cross_script_returns", 1), ("scripted", "max_walked", 2048),
+                            ("heavy", "max_walked", 1500),
                             ("random", "unwound_script_contexts", 1), ("random", "max_script_contexts", 4), ("random", "max_idepth", 7)):
         if (pc.get(cls) or {}).get(key, 0) < least:
             raise vlib.Inconclusive("vacuity guard: class %s reached %s = %s (< %s)" % (cls, key, (pc.get(cls) or {}).get(key), least))
